@@ -347,7 +347,7 @@ func (t *Total) Merge(t2 *Total) *Total {
 // Calculate will go through all the categories and rates to calculate the final
 // sum of the taxes. The rounding rule will be applied to the final sums.
 func (t *Total) Calculate(cur currency.Code, rr cbc.Key) {
-	if t == nil {
+	if t == nil || cur.Def() == nil {
 		return
 	}
 	zero := cur.Def().Zero()
